@@ -481,6 +481,67 @@ func WriteFile(path string, b []byte) {
 // Goroutines returns the current number of goroutines.
 func Goroutines() int { return runtime.NumGoroutine() }
 
+// GoroutineSigs returns the multiset of live goroutines keyed by "top function <- created by function".
+func GoroutineSigs() map[string]int {
+	buf := make([]byte, 1<<20)
+	for {
+		n := runtime.Stack(buf, true)
+		if n < len(buf) {
+			buf = buf[:n]
+			break
+		}
+		buf = make([]byte, 2*len(buf))
+	}
+	out := map[string]int{}
+	for _, g := range strings.Split(string(buf), "\n\n") {
+		lines := strings.Split(strings.TrimSpace(g), "\n")
+		if len(lines) < 2 || !strings.HasPrefix(lines[0], "goroutine ") {
+			continue
+		}
+		fn := func(l string) string {
+			l = strings.TrimSpace(l)
+			if i := strings.LastIndex(l, "("); i > 0 {
+				l = l[:i]
+			}
+			return l
+		}
+		// the first frames outside the runtime say what the goroutine is waiting in
+		var frames []string
+		created := ""
+		for i := 1; i < len(lines); i += 2 {
+			l := lines[i]
+			if strings.HasPrefix(l, "created by ") {
+				created = strings.TrimPrefix(l, "created by ")
+				if j := strings.Index(created, " in goroutine"); j > 0 {
+					created = created[:j]
+				}
+				break
+			}
+			f := fn(l)
+			if strings.HasPrefix(f, "runtime.") || strings.HasPrefix(f, "internal/") || strings.HasPrefix(f, "sync.") || strings.HasPrefix(f, "time.") {
+				continue
+			}
+			if len(frames) < 3 {
+				frames = append(frames, f)
+			}
+		}
+		out[strings.Join(frames, " < ")+" <- "+created]++
+	}
+	return out
+}
+
+// GoroutineDiff lists what is in after beyond before.
+func GoroutineDiff(before, after map[string]int) []string {
+	var d []string
+	for k, n := range after {
+		if n > before[k] {
+			d = append(d, fmt.Sprintf("+%d %s", n-before[k], k))
+		}
+	}
+	sort.Strings(d)
+	return d
+}
+
 // Since returns virtual (SIM) or monotonic time since t.
 func Since(t time.Time) time.Duration { return time.Since(t) }
 
